@@ -65,7 +65,7 @@ BOOL: "AND"i | "OR"i
 ASC: "ASC"i
 DESC: "DESC"i
 STAR: "*"
-PARAM: "?"
+PARAM: "?" | /:[A-Za-z_][A-Za-z_0-9]*/
 SETLIST: "@SETLIST@"
 CMP: ">=" | "<=" | "!=" | "<>" | "==" | "=" | "<" | ">"
 TYPE: "INTEGER"i | "TEXT"i | "REAL"i
@@ -193,6 +193,10 @@ def _build(tree):
     collect_params(tree)
     params.sort()
     pindex = {p: i for i, p in enumerate(params)}
+    pnames = {}
+    for tok in tree.scan_values(lambda v: isinstance(v, Token) and v.type == "PARAM"):
+        if str(tok).startswith(":"):
+            pnames[pindex[tok.start_pos]] = str(tok)[1:]
 
     def expr(t):
         if isinstance(t, Token):
@@ -293,6 +297,7 @@ def _build(tree):
 
     st = stmt(tree.children[0])
     st.n_params = len(params)
+    st.param_names = pnames  # placeholder index -> name, for :name placeholders
     return st
 
 
@@ -555,6 +560,15 @@ def _sql_sites(prog, mod_name):
                             bindings = list(elts)
                     elif isinstance(v, (ast.List, ast.Tuple)):
                         b = v
+                if isinstance(b, ast.Name) and not many and isinstance(single_def(fi, b.id), ast.Dict):
+                    b = single_def(fi, b.id)
+                if isinstance(b, ast.Call) and isinstance(b.func, ast.Name) and b.func.id == "dict" and not b.args and all(k.arg for k in b.keywords):
+                    b = ast.copy_location(ast.Dict(keys=[ast.Constant(value=k.arg) for k in b.keywords], values=[k.value for k in b.keywords]), b)
+                if isinstance(b, ast.Dict) and getattr(st, "param_names", None) and len(st.param_names) == st.n_params and all(isinstance(k, ast.Constant) for k in b.keys):
+                    # named placeholders: one bound expression per placeholder occurrence, in order of appearance
+                    table = {k.value: v for k, v in zip(b.keys, b.values)}
+                    if all(st.param_names[i] in table for i in range(st.n_params)):
+                        b = ast.copy_location(ast.List(elts=[table[st.param_names[i]] for i in range(st.n_params)], ctx=ast.Load()), b)
                 if isinstance(b, ast.BinOp) and isinstance(b.op, ast.Add) and isinstance(b.right, (ast.Tuple, ast.List)) and not isinstance(b.left, (ast.Tuple, ast.List)):
                     # values + (bucket_id,)  ==  (*values, bucket_id)
                     b = ast.copy_location(ast.Tuple(elts=[ast.Starred(value=b.left, ctx=ast.Load())] + list(b.right.elts), ctx=ast.Load()), b)
